@@ -28,28 +28,39 @@ pub mod jsonwebtoken {
     #[verifier::external_body]
     pub struct DecodingKey { _p: u8 }
     pub uninterp spec fn key_family(k: DecodingKey) -> Family;
+    // HashSet<String> of required registered claims, as a ghost set with the mutators a caller may use (deviation surface)
+    pub struct ClaimSet { pub s: Ghost<Set<Seq<char>>> }
+    impl ClaimSet {
+        pub open spec fn view(&self) -> Set<Seq<char>> { self.s@ }
+        #[verifier::external_body]
+        pub fn clear(&mut self) ensures final(self)@ == Set::<Seq<char>>::empty() { unimplemented!() }
+        #[verifier::external_body]
+        pub fn insert(&mut self, c: String) -> (r: bool) ensures final(self)@ == old(self)@.insert(c@) { unimplemented!() }
+        #[verifier::external_body]
+        pub fn remove(&mut self, c: &str) -> (r: bool) ensures final(self)@ == old(self)@.remove(c@) { unimplemented!() }
+    }
     pub struct Validation {
         pub algorithms: Vec<Algorithm>, pub leeway: u64,
         pub validate_exp: bool, pub validate_nbf: bool, pub validate_aud: bool,
-        pub aud: Option<Seq<Seq<char>>>, pub required: Ghost<Set<Seq<char>>>, pub validate_signature: bool,
+        pub aud: Option<Seq<Seq<char>>>, pub required_spec_claims: ClaimSet, pub validate_signature: bool,
     }
     impl Validation {
         #[verifier::external_body]
         pub fn new(alg: Algorithm) -> (r: Validation)
             ensures r.algorithms@ == seq![alg], r.leeway == 60, r.validate_exp, !r.validate_nbf, r.validate_aud,
-                r.aud is None, r.required@ == set!["exp"@], r.validate_signature
+                r.aud is None, r.required_spec_claims@ == set!["exp"@], r.validate_signature
         { unimplemented!() }
         #[verifier::external_body]
         pub fn set_audience(&mut self, a: &[&String])
             ensures final(self).aud == Some(ref_strings(a@)),
                 final(self).algorithms == old(self).algorithms, final(self).leeway == old(self).leeway,
                 final(self).validate_exp == old(self).validate_exp, final(self).validate_nbf == old(self).validate_nbf,
-                final(self).validate_aud == old(self).validate_aud, final(self).required == old(self).required,
+                final(self).validate_aud == old(self).validate_aud, final(self).required_spec_claims == old(self).required_spec_claims,
                 final(self).validate_signature == old(self).validate_signature,
         { unimplemented!() }
         #[verifier::external_body]
         pub fn set_required_spec_claims(&mut self, a: &[&str])
-            ensures final(self).required@ == a@.map_values(|s: &str| s@).to_set(),
+            ensures final(self).required_spec_claims@ == ref_strs(a@).to_set(),
                 final(self).algorithms == old(self).algorithms, final(self).leeway == old(self).leeway,
                 final(self).validate_exp == old(self).validate_exp, final(self).validate_nbf == old(self).validate_nbf,
                 final(self).validate_aud == old(self).validate_aud, final(self).aud == old(self).aud,
@@ -63,14 +74,14 @@ pub mod jsonwebtoken {
             ensures !final(self).validate_signature,
                 final(self).algorithms == old(self).algorithms, final(self).leeway == old(self).leeway,
                 final(self).validate_exp == old(self).validate_exp, final(self).validate_nbf == old(self).validate_nbf,
-                final(self).validate_aud == old(self).validate_aud, final(self).aud == old(self).aud, final(self).required == old(self).required,
+                final(self).validate_aud == old(self).validate_aud, final(self).aud == old(self).aud, final(self).required_spec_claims == old(self).required_spec_claims,
         { unimplemented!() }
     }
     impl Default for Validation {
         #[verifier::external_body]
         fn default() -> (r: Validation)
             ensures r.algorithms@ == seq![Algorithm::HS256], r.leeway == 60, r.validate_exp, !r.validate_nbf, r.validate_aud,
-                r.aud is None, r.required@ == set!["exp"@], r.validate_signature
+                r.aud is None, r.required_spec_claims@ == set!["exp"@], r.validate_signature
         { unimplemented!() }
     }
     pub mod crypto {
@@ -86,6 +97,7 @@ pub mod jsonwebtoken {
     pub fn dangerous_insecure_decode<T: JwtClaims>(token: &str) -> (r: Result<TokenData<T>, JwtError>)
         ensures r is Ok ==> r->Ok_0.header == hdr_of(token@) && r->Ok_0.claims.jclaims() == claims_of(token@),
     { unimplemented!() }
+    pub open spec fn ref_strs(v: Seq<&str>) -> Seq<Seq<char>> { v.map_values(|s: &str| s@) }
     pub open spec fn ref_strings(v: Seq<&String>) -> Seq<Seq<char>> { v.map_values(|s: &String| s@) }
     #[verifier::external_body]
     pub fn get_current_timestamp() -> (r: u64) ensures r == now() { unimplemented!() }
@@ -113,17 +125,25 @@ pub mod jsonwebtoken {
     pub uninterp spec fn hdr_of(tok: Seq<char>) -> Header;
     pub uninterp spec fn claims_of(tok: Seq<char>) -> Seq<(Seq<char>, J)>;
     pub uninterp spec fn sig_ok(tok: Seq<char>, key: DecodingKey, alg: Algorithm) -> bool;
-    pub uninterp spec fn exp_ok(claims: Seq<(Seq<char>, J)>, now: nat, leeway: nat) -> bool;
-    pub uninterp spec fn nbf_ok(claims: Seq<(Seq<char>, J)>, now: nat, leeway: nat) -> bool;
-    pub uninterp spec fn aud_ok(claims: Seq<(Seq<char>, J)>, aud: Seq<Seq<char>>) -> bool;
+    // jsonwebtoken validates a registered claim only when it is present and of the right JSON type; that it is present
+    // (and usable) is demanded separately, through `required_spec_claims`:
+    pub uninterp spec fn claim_usable(claims: Seq<(Seq<char>, J)>, name: Seq<char>) -> bool;      // present and of the expected type
+    pub uninterp spec fn exp_not_expired(claims: Seq<(Seq<char>, J)>, now: nat, leeway: nat) -> bool;   // vacuous if exp is absent
+    pub uninterp spec fn nbf_not_future(claims: Seq<(Seq<char>, J)>, now: nat, leeway: nat) -> bool;    // vacuous if nbf is absent
+    pub uninterp spec fn aud_matches(claims: Seq<(Seq<char>, J)>, aud: Seq<Seq<char>>) -> bool;         // vacuous if aud is absent
+    // what the properties ask for
+    pub open spec fn exp_ok(claims: Seq<(Seq<char>, J)>, now: nat, leeway: nat) -> bool { claim_usable(claims, "exp"@) && exp_not_expired(claims, now, leeway) }
+    pub open spec fn nbf_ok(claims: Seq<(Seq<char>, J)>, now: nat, leeway: nat) -> bool { nbf_not_future(claims, now, leeway) }
+    pub open spec fn aud_ok(claims: Seq<(Seq<char>, J)>, aud: Seq<Seq<char>>) -> bool { claim_usable(claims, "aud"@) && aud_matches(claims, aud) }
     pub open spec fn jwt_accept(tok: Seq<char>, key: DecodingKey, v: Validation) -> bool {
         &&& well_formed(tok)
         &&& v.algorithms@.contains(hdr_of(tok).alg)
         &&& forall|i: int| 0 <= i < v.algorithms@.len() ==> key_family(key) == #[trigger] family(v.algorithms@[i])
         &&& (v.validate_signature ==> sig_ok(tok, key, hdr_of(tok).alg))
-        &&& (v.validate_exp ==> exp_ok(claims_of(tok), now(), v.leeway as nat))
-        &&& (v.validate_nbf ==> nbf_ok(claims_of(tok), now(), v.leeway as nat))
-        &&& (v.validate_aud && v.aud is Some ==> aud_ok(claims_of(tok), v.aud->Some_0))
+        &&& (forall|c: Seq<char>| v.required_spec_claims@.contains(c) ==> #[trigger] claim_usable(claims_of(tok), c))
+        &&& (v.validate_exp ==> exp_not_expired(claims_of(tok), now(), v.leeway as nat))
+        &&& (v.validate_nbf ==> nbf_not_future(claims_of(tok), now(), v.leeway as nat))
+        &&& (v.validate_aud && v.aud is Some ==> aud_matches(claims_of(tok), v.aud->Some_0))
     }
     #[verifier::external_body]
     pub fn decode_header(token: &str) -> (r: Result<Header, JwtError>)
